@@ -387,6 +387,12 @@ class StrictV2Stub(StubSim):
         return StubSim.init(self, sid, kwargs.get("time_resolution", 1.0), kwargs.get("spec"))
 
 
+def _late_aliases():
+    from . import stubs_alias
+    STUB_CLASSES["old_init_alias"] = stubs_alias.StubSim
+    STUB_CLASSES["old_both_alias"] = stubs_alias.OldBothAlias
+
+
 STUB_CLASSES = {
     "stub": StubSim,
     "async": AsyncStubSim,
@@ -395,3 +401,4 @@ STUB_CLASSES = {
     "old_both": OldBothStub,
     "strict": StrictV2Stub,
 }
+_late_aliases()
